@@ -1,89 +1,107 @@
-//! C03/C09: the REAL `RoutingEnd` operator on a fake topology.
+//! C09 (route part): the REAL `RoutingEnd` operator (`renoir::verif::ops::routing_end`, the operator behind
+//! `Stream::route()`) on a fake topology around the producer replica `0.0.0`.
 //!
-//! header: `route <OnlyOne|GroupBy> <me b.0.r>`
-//! ops:    `route <block> <bit>`         a route towards `block` whose filter accepts an item iff
-//!                                       bit `<bit>` (0..3) of the item's mask is set; route order
-//!         `next <b.h.r> <fragile 0|1>`  downstream replicas, in `connect` order
-//!         `e <elem>`                    payloads are `(mask,hash,value)`; `hash` is what the
-//!                                       `GroupBy` keyer returns
-//! outputs: `<step> <elem> <receiver b.h.r,…>` (sorted) per step and distinct element received.
+//! ops:    `r <block> <pred> <nrep>`   a route (see lean/Driver/Route.lean for the skipping rules)
+//!         `e <elem>`                  scripted element (payload: an int)
+//! outputs: `<step> <elem> <receiver b.h.r,…>` (sorted) per step and distinct element received at that step.
 use nvh::*;
 use renoir::operator::{Operator, StreamElement};
 use renoir::verif::ops::{self, Strategy};
 use renoir::verif::{Coord, FakeNet, FakeReceiver, ScriptOp};
 use renoir::BatchMode;
 
-fn parse_coord(s: &str) -> Coord {
-    let p: Vec<u64> = s.split('.').map(|x| x.parse().expect("bad coord")).collect();
-    Coord::new(p[0], p[1], p[2])
+fn n_of(v: &Val) -> i64 {
+    match v {
+        Val::Int(n) => *n,
+        _ => 0,
+    }
+}
+fn p_div2(v: &Val) -> bool {
+    n_of(v) % 2 == 0
+}
+fn p_div3(v: &Val) -> bool {
+    n_of(v) % 3 == 0
+}
+fn p_div5(v: &Val) -> bool {
+    n_of(v) % 5 == 0
+}
+fn p_odd(v: &Val) -> bool {
+    n_of(v) % 2 != 0
+}
+fn p_lt0(v: &Val) -> bool {
+    n_of(v) < 0
+}
+fn p_lt5(v: &Val) -> bool {
+    n_of(v) < 5
+}
+fn p_lt10(v: &Val) -> bool {
+    n_of(v) < 10
+}
+fn p_ge5(v: &Val) -> bool {
+    n_of(v) >= 5
+}
+fn p_always(_: &Val) -> bool {
+    true
+}
+fn p_never(_: &Val) -> bool {
+    false
+}
+
+const PREDS: &[&str] = &["div2", "div3", "div5", "odd", "lt0", "lt5", "lt10", "ge5", "always", "never"];
+
+/// the library of named predicates (mirrors `predOf` in lean/Driver/Route.lean)
+fn pred_of(name: &str) -> fn(&Val) -> bool {
+    match name {
+        "div2" => p_div2,
+        "div3" => p_div3,
+        "div5" => p_div5,
+        "odd" => p_odd,
+        "lt0" => p_lt0,
+        "lt5" => p_lt5,
+        "lt10" => p_lt10,
+        "ge5" => p_ge5,
+        "always" => p_always,
+        _ => p_never,
+    }
 }
 
 fn coord(c: &Coord) -> String {
     format!("{}.{}.{}", c.block_id, c.host_id, c.replica_id)
 }
 
-fn field(v: &Val, i: usize) -> i64 {
-    match v {
-        Val::Tup(l) => l[i].int(),
-        v => v.int(),
-    }
-}
-
-fn hash_of(v: &Val) -> u64 {
-    field(v, 1) as u64
-}
-fn bit0(v: &Val) -> bool {
-    field(v, 0) & 1 != 0
-}
-fn bit1(v: &Val) -> bool {
-    field(v, 0) & 2 != 0
-}
-fn bit2(v: &Val) -> bool {
-    field(v, 0) & 4 != 0
-}
-fn bit3(v: &Val) -> bool {
-    field(v, 0) & 8 != 0
-}
-
 fn exec(c: &Case) -> Vec<String> {
-    let strategy = c.header[1].as_str();
-    let me = parse_coord(&c.header[2]);
+    let me = Coord::new(0, 0, 0);
     let mut net = FakeNet::new(me);
     let mut receivers: Vec<FakeReceiver<Val>> = vec![];
     let mut routes: Vec<(u64, fn(&Val) -> bool)> = vec![];
     let mut script = vec![];
     for op in &c.ops {
-        match op[0].as_str() {
-            "next" => {
-                let to = parse_coord(&op[1]);
-                if receivers.iter().any(|r| r.to == to) {
+        match (op[0].as_str(), op.len()) {
+            ("r", 4) => {
+                let (Ok(b), Ok(n)) = (op[1].parse::<u64>(), op[3].parse::<u64>()) else { continue };
+                if b == 0 || n == 0 || routes.len() >= 4 || routes.iter().any(|r| r.0 == b) {
                     continue;
                 }
-                receivers.push(net.add_next::<Val>(to, op[2] == "1"));
+                for i in 0..n.min(2) {
+                    receivers.push(net.add_next::<Val>(Coord::new(b, 0, i), false));
+                }
+                routes.push((b, pred_of(&op[2])));
             }
-            "route" => {
-                let f: fn(&Val) -> bool = match op[2].as_str() {
-                    "0" => bit0,
-                    "1" => bit1,
-                    "2" => bit2,
-                    _ => bit3,
-                };
-                routes.push((op[1].parse().unwrap(), f));
+            ("e", 2) => {
+                if let Some(e) = parse_elem(&op[1]) {
+                    script.push(e)
+                }
             }
-            "e" => script.push(parse_elem(&op[1]).expect("bad elem")),
             _ => {}
         }
     }
     let n = script.len();
-    let s = match strategy {
-        "GroupBy" => Strategy::GroupBy(hash_of as fn(&Val) -> u64),
-        _ => Strategy::OnlyOne,
-    };
-    let mut end = ops::routing_end(ScriptOp::new(script), routes, s, BatchMode::single());
+    let mut end = ops::routing_end(ScriptOp::new(script), routes, Strategy::OnlyOne, BatchMode::single());
     net.with_metadata(vec![me], 0, BatchMode::single(), |m| end.setup(m));
     let mut out = vec![];
     for step in 0..n {
         end.next();
+        // drain every receiver
         let mut got: Vec<(StreamElement<Val>, Vec<Coord>)> = vec![];
         for r in &receivers {
             while let Some((from, batch)) = r.try_recv() {
@@ -106,68 +124,48 @@ fn exec(c: &Case) -> Vec<String> {
 }
 
 fn gen(rng: &mut Rng, i: usize) -> Case {
-    let malformed = i % 10 == 3;
-    // `route()` of the public API always uses OnlyOne; GroupBy shows `indexes[index]` (no modulo)
-    let strategy = if rng.chance(1, 5) { "GroupBy" } else { "OnlyOne" };
-    let me_block = rng.range(0, 3) as u64;
-    let me = format!("{}.0.{}", me_block, rng.range(0, 3));
-    let mut c = Case::new(&["route", strategy, &me]);
-    let nroutes = rng.range(1, 4);
+    let malformed = i % 15 == 7;
+    let mut c = Case::new(&["route"]);
+    let k = match rng.below(8) {
+        0 => 1,
+        1 | 2 => 2,
+        3 | 4 => 3,
+        5 => 4,
+        _ => rng.range(if malformed { 0 } else { 1 }, 4),
+    };
+    // block ids: distinct, in arbitrary (not sorted) order, so that route order != sender order
     let mut blocks: Vec<u64> = vec![];
-    while (blocks.len() as i64) < nroutes {
-        let b = rng.range(0, 9) as u64;
-        if b != me_block && !blocks.contains(&b) {
+    while (blocks.len() as i64) < k {
+        let b = rng.range(1, 9) as u64;
+        if !blocks.contains(&b) {
             blocks.push(b);
         }
     }
-    // routes: distinct or overlapping filters (the same bit twice: only the first route matches)
-    for &b in &blocks {
-        let hi = if rng.chance(1, 3) { 1 } else { 3 };
-        let bit = rng.range(0, hi);
-        c.ops(vec!["route".into(), b.to_string(), bit.to_string()]);
-    }
-    let mut connected = blocks.clone();
-    if malformed {
-        match rng.below(4) {
-            0 => {
-                connected.pop(); // a route without connection
+    // predicates: overlapping on purpose; sometimes a catch-all first/last, sometimes nothing matches
+    for (j, b) in blocks.iter().enumerate() {
+        let p = match rng.below(10) {
+            0 => "never",
+            1 => {
+                if j + 1 == blocks.len() {
+                    "always"
+                } else {
+                    "lt5"
+                }
             }
-            1 => connected.push(77), // a connection without route
-            2 => c.ops(vec!["route".into(), blocks[0].to_string(), "0".into()]), // duplicate route
-            _ => {}
-        }
+            _ => *rng.pick(PREDS),
+        };
+        let nrep = if rng.chance(1, 6) { 2 } else { 1 };
+        c.ops(vec!["r".into(), b.to_string(), p.into(), nrep.to_string()]);
     }
-    let mut nexts: Vec<(String, bool)> = vec![];
-    for &b in &connected {
-        let nrep = if strategy == "OnlyOne" && rng.chance(3, 4) { 1 } else { rng.range(1, 4) };
-        let nhosts = rng.range(1, 3);
-        let fragile_block = malformed && rng.chance(1, 6);
-        let mut per_host = vec![0u64; nhosts as usize];
-        for _ in 0..nrep {
-            let h = rng.below(nhosts as u64) as usize;
-            nexts.push((format!("{b}.{h}.{}", per_host[h]), fragile_block));
-            per_host[h] += 1;
-        }
-    }
-    for k in (1..nexts.len()).rev() {
-        let j = rng.below(k as u64 + 1) as usize;
-        nexts.swap(k, j);
-    }
-    for (n, f) in &nexts {
-        c.op(&["next", n, if *f { "1" } else { "0" }]);
-    }
-    let mut v = 0i64;
-    for _ in 0..rng.range(1, 2) {
+    let iters = rng.range(1, 2);
+    for _ in 0..iters {
         for _ in 0..rng.range(0, 10) {
-            v += 1;
-            let mask = rng.range(0, 15);
-            // hash = index inside the group; mostly in range
-            let h = if rng.chance(5, 6) { rng.range(0, 2) } else { rng.range(3, 9) };
-            let e = if rng.chance(1, 3) {
-                format!("T:({mask},{h},{v}):{}", rng.range(0, 50))
-            } else {
-                format!("I:({mask},{h},{v})")
+            let v = match rng.below(8) {
+                0 => rng.range(-6, -1),
+                1 => *rng.pick(&[0i64, 4, 5, 9, 10, 15, 30]),
+                _ => rng.range(0, 20),
             };
+            let e = if rng.chance(1, 3) { format!("T:{v}:{}", rng.range(0, 50)) } else { format!("I:{v}") };
             c.ops(vec!["e".into(), e]);
             if rng.chance(1, 8) {
                 c.ops(vec!["e".into(), format!("W:{}", rng.range(0, 50))]);
@@ -179,8 +177,8 @@ fn gen(rng: &mut Rng, i: usize) -> Case {
         c.op(&["e", "FAR"]);
     }
     c.op(&["e", "TERM"]);
-    if malformed && rng.chance(1, 3) {
-        c.ops(vec!["e".into(), (*rng.pick(&["W:3", "I:(15,0,1)", "I:(0,0,1)", "FB", "TERM"])).into()]);
+    if malformed && rng.chance(2, 3) {
+        c.ops(vec!["e".into(), (*rng.pick(&["W:3", "I:4", "I:7", "FB", "TERM", "FAR"])).into()]);
     }
     c
 }
